@@ -37,6 +37,9 @@ type TaskSpec struct {
 	Extra    string // extra YAML lines of the role (indented 4 spaces)
 	ClassExtra string // extra YAML of the task class (top level)
 	Cpu, Mem float64
+	// Group, if not empty, nests the role inside an aggregator role of that name
+	// (consecutive tasks with the same Group share one aggregator): root -> group -> role.
+	Group string
 }
 
 // WorkflowSpec describes a generated workflow template.
@@ -46,6 +49,10 @@ type WorkflowSpec struct {
 	Tasks []TaskSpec
 	Calls []string // extra YAML role blocks (call roles), indented 2 spaces
 	Vars  map[string]string
+	// RootExtra is extra YAML of the root role (top level of the file, not indented).
+	RootExtra string
+	// GroupExtra is extra YAML of an aggregator role created by TaskSpec.Group (indented 4 spaces).
+	GroupExtra map[string]string
 }
 
 var (
@@ -156,18 +163,42 @@ func WriteWorkflow(wf WorkflowSpec) {
 	for _, k := range vk {
 		fmt.Fprintf(&b, "  %s: %q\n", k, wf.Vars[k])
 	}
+	if wf.RootExtra != "" {
+		b.WriteString(wf.RootExtra)
+	}
 	b.WriteString("roles:\n")
+	curGroup := ""
 	for _, t := range wf.Tasks {
-		fmt.Fprintf(&b, "  - name: %q\n", t.Name)
+		var rb strings.Builder
+		fmt.Fprintf(&rb, "  - name: %q\n", t.Name)
 		if t.Host != "" {
-			fmt.Fprintf(&b, "    constraints:\n      - attribute: machine_id\n        value: %q\n", t.Host)
+			fmt.Fprintf(&rb, "    constraints:\n      - attribute: machine_id\n        value: %q\n", t.Host)
 		}
 		if t.Extra != "" {
-			b.WriteString(t.Extra)
+			rb.WriteString(t.Extra)
 		}
-		fmt.Fprintf(&b, "    task:\n      load: %s\n      critical: %v\n", t.Class, t.Critical)
+		fmt.Fprintf(&rb, "    task:\n      load: %s\n      critical: %v\n", t.Class, t.Critical)
 		if t.Trigger != "" {
-			fmt.Fprintf(&b, "      trigger: %s\n      timeout: 10s\n", t.Trigger)
+			fmt.Fprintf(&rb, "      trigger: %s\n      timeout: 10s\n", t.Trigger)
+		}
+		if t.Group != curGroup {
+			curGroup = t.Group
+			if curGroup != "" {
+				fmt.Fprintf(&b, "  - name: %q\n", curGroup)
+				if x := wf.GroupExtra[curGroup]; x != "" {
+					b.WriteString(x)
+				}
+				b.WriteString("    roles:\n")
+			}
+		}
+		if curGroup != "" {
+			for _, l := range strings.SplitAfter(rb.String(), "\n") {
+				if l != "" {
+					b.WriteString("    " + l)
+				}
+			}
+		} else {
+			b.WriteString(rb.String())
 		}
 		writeClass(t)
 	}
@@ -175,6 +206,16 @@ func WriteWorkflow(wf WorkflowSpec) {
 		b.WriteString(c)
 	}
 	os.WriteFile(filepath.Join(d, "repo", "workflows", wf.Name+".yaml"), []byte(b.String()), 0o644)
+}
+
+// RemoveWorkflow deletes the files WriteWorkflow generated for wf (harnesses that
+// generate one workflow per explored input call it at the end of the execution).
+func RemoveWorkflow(wf WorkflowSpec) {
+	d := Dir()
+	os.Remove(filepath.Join(d, "repo", "workflows", wf.Name+".yaml"))
+	for _, t := range wf.Tasks {
+		os.Remove(filepath.Join(d, "repo", "tasks", t.Class+".yaml"))
+	}
 }
 
 func writeClass(t TaskSpec) {
